@@ -208,13 +208,30 @@ func serTransform(ops []TOp, style int) string {
 	return b.String()
 }
 
+// serPath writes path data. style%3 selects the separators; with (style/6)%2 == 1 a command letter is left out where SVG 1.1
+// 8.3.2 allows it: when the command repeats the one before it, and for L after M / l after m (further coordinate pairs after a
+// moveto are implicit lineto commands of the same relativity).
 func serPath(segs []Cmd, style int) string {
 	var b strings.Builder
+	implicit := (style/6)%2 == 1
+	prev := ""
 	for i, c := range segs {
-		if i > 0 && style%3 != 0 {
+		omit := false
+		if implicit && i > 0 && len(c.A) > 0 {
+			switch {
+			case c.C == prev && c.C != "M" && c.C != "m":
+				omit = true
+			case prev == "M" && c.C == "L", prev == "m" && c.C == "l":
+				omit = true
+			}
+		}
+		prev = c.C
+		if i > 0 && (style%3 != 0 || omit) {
 			b.WriteByte(' ')
 		}
-		b.WriteString(c.C)
+		if !omit {
+			b.WriteString(c.C)
+		}
 		for j, a := range c.A {
 			switch style % 3 {
 			case 0:
@@ -222,7 +239,9 @@ func serPath(segs []Cmd, style int) string {
 					b.WriteByte(' ')
 				}
 			case 1:
-				b.WriteByte(' ')
+				if j > 0 || !omit {
+					b.WriteByte(' ')
+				}
 			default:
 				if j > 0 {
 					if j%2 == 1 && len(c.A)%2 == 0 {
